@@ -5,7 +5,6 @@ import (
 	"math"
 	"os"
 	"reflect"
-	"runtime"
 	"runtime/metrics"
 	"time"
 	"unsafe"
@@ -617,6 +616,9 @@ func (c06Prop) Generate(seed uint64, idx int, tier string) *Plan {
 		enumEvery, enumCap = 30, 1500
 	}
 	pl.EnumCap = enumCap
+	if pl.Src == "file" && r.P(1, 16) && idx%enumEvery != enumEvery-1 {
+		pl.File = genBigFileSpec(r) // blocks larger than the reader's chunk size
+	}
 	if idx%enumEvery == enumEvery-1 {
 		pl.Enum = true
 		if pl.Src == "wire" {
@@ -1045,6 +1047,13 @@ func (c06Prop) Execute(p *Plan, run *Run) any {
 	// sanity: the intact artifact must read (otherwise the workload is not valid)
 	base := c06Call(func() (int, error) { return c06ReadFile(a.target, NewDiskReader(a.file, pl.Chunks)) })
 	run.Evals++
+	if base.pan != nil {
+		// a valid artifact is a byte string too: reading it must not panic
+		q := p.clone()
+		q.C06.Cases, q.C06.Enum = nil, false
+		run.Violation("c06/panic:"+panicClass(base.pan), base.site, fmt.Sprintf("reading the INTACT artifact (%d bytes, %s) panicked: %v", len(a.file), a.codec, base.pan), q)
+		return nil
+	}
 	if base.pan != nil || base.err != nil {
 		run.Probes.Inc("skipped:intact-artifact-does-not-read")
 		run.Log.Add("skip intact")
@@ -1175,13 +1184,7 @@ func (c06Prop) Execute(p *Plan, run *Run) any {
 				}
 			}
 		}
-		if executedCases%16 == 0 {
-			var ms runtime.MemStats
-			runtime.ReadMemStats(&ms)
-			if ms.HeapAlloc > 1<<30 {
-				runtime.GC()
-			}
-		}
+		heapHygiene() // collector is off: collect between cases once the heap is large
 	}
 	return map[string]any{"source": pl.Src, "file_len": len(a.file), "blocks": len(a.blocks), "codec": a.codec, "cases": len(cases), "cases_with_effect": executedCases, "enumerated": pl.Enum, "target": a.target.String()}
 }
